@@ -61,11 +61,11 @@ open TsGen TsVerif
 /-! ## The gate -/
 
 /-- `gate_refuses`: whatever the gate accepts satisfies every test of `ts_parser__reuse_node`. -/
-theorem gate_refuses (L : Lang) (diffs : List (Nat × Nat)) (t : Tree) (off pos state : Nat) (extEq lineDiff : Bool)
-    (h : reuseGate L diffs t off pos state extEq lineDiff = .reuse) :
+theorem gate_refuses (L : Lang) (diffs : List (Nat × Nat)) (t : Tree) (off pos state : Nat) (extEq lineDiff : Bool) (oldEnd : Option Nat)
+    (h : reuseGate L diffs t off pos state extEq lineDiff oldEnd = .reuse) :
     off = pos ∧ extEq = true ∧ t.data.hasChanges = false ∧ t.data.symbol ≠ symError ∧
     t.data.isMissing = false ∧ t.data.fragileLeft = false ∧ t.data.fragileRight = false ∧
-    rangeIntersects diffs off (diffSpanEnd t off) = false ∧ lineDiff = false ∧
+    rangeIntersects diffs off (diffSpanEnd t off oldEnd) = false ∧ lineDiff = false ∧
     canReuseFirstLeaf L state t (L.tableEntry state (leafSymbol t)) = true := by
   unfold reuseGate at h
   repeat' split at h
@@ -74,25 +74,25 @@ theorem gate_refuses (L : Lang) (diffs : List (Nat × Nat)) (t : Tree) (off pos 
     | (simp_all; omega)
 
 /-- `gate_accepts`: conversely, a candidate passing every test is reused. -/
-theorem gate_accepts (L : Lang) (diffs : List (Nat × Nat)) (t : Tree) (off pos state : Nat) (extEq lineDiff : Bool)
+theorem gate_accepts (L : Lang) (diffs : List (Nat × Nat)) (t : Tree) (off pos state : Nat) (extEq lineDiff : Bool) (oldEnd : Option Nat)
     (h1 : off = pos) (h2 : extEq = true) (h3 : t.data.hasChanges = false) (h4 : t.data.symbol ≠ symError)
     (h5 : t.data.isMissing = false) (h6 : t.data.fragileLeft = false) (h7 : t.data.fragileRight = false)
-    (h8 : rangeIntersects diffs off (diffSpanEnd t off) = false) (h8' : lineDiff = false)
+    (h8 : rangeIntersects diffs off (diffSpanEnd t off oldEnd) = false) (h8' : lineDiff = false)
     (h9 : canReuseFirstLeaf L state t (L.tableEntry state (leafSymbol t)) = true) :
-    reuseGate L diffs t off pos state extEq lineDiff = .reuse := by
+    reuseGate L diffs t off pos state extEq lineDiff oldEnd = .reuse := by
   subst h1
   unfold reuseGate
   simp [h2, h3, h4, h5, h6, h7, h8, h8', h9]
 
 /-- `gate_verdict_complete`: each refusal reason is the first failing test, in the order of the C code. -/
-theorem gate_verdict_complete (L : Lang) (diffs : List (Nat × Nat)) (t : Tree) (off pos state : Nat) (extEq lineDiff : Bool) :
-    (reuseGate L diffs t off pos state extEq lineDiff = .before ↔ off > pos) ∧
-    (reuseGate L diffs t off pos state extEq lineDiff = .past ↔ off < pos) ∧
-    (reuseGate L diffs t off pos state extEq lineDiff = .extState ↔ off = pos ∧ extEq = false) ∧
-    (reuseGate L diffs t off pos state extEq lineDiff = .hasChanges ↔ off = pos ∧ extEq = true ∧ t.data.hasChanges = true) ∧
-    (reuseGate L diffs t off pos state extEq lineDiff = .isError ↔
+theorem gate_verdict_complete (L : Lang) (diffs : List (Nat × Nat)) (t : Tree) (off pos state : Nat) (extEq lineDiff : Bool) (oldEnd : Option Nat) :
+    (reuseGate L diffs t off pos state extEq lineDiff oldEnd = .before ↔ off > pos) ∧
+    (reuseGate L diffs t off pos state extEq lineDiff oldEnd = .past ↔ off < pos) ∧
+    (reuseGate L diffs t off pos state extEq lineDiff oldEnd = .extState ↔ off = pos ∧ extEq = false) ∧
+    (reuseGate L diffs t off pos state extEq lineDiff oldEnd = .hasChanges ↔ off = pos ∧ extEq = true ∧ t.data.hasChanges = true) ∧
+    (reuseGate L diffs t off pos state extEq lineDiff oldEnd = .isError ↔
       off = pos ∧ extEq = true ∧ t.data.hasChanges = false ∧ t.data.symbol = symError) ∧
-    (reuseGate L diffs t off pos state extEq lineDiff = .isMissing ↔
+    (reuseGate L diffs t off pos state extEq lineDiff oldEnd = .isMissing ↔
       off = pos ∧ extEq = true ∧ t.data.hasChanges = false ∧ t.data.symbol ≠ symError ∧ t.data.isMissing = true) := by
   unfold reuseGate
   by_cases a : off > pos
@@ -118,43 +118,43 @@ theorem gate_verdict_complete (L : Lang) (diffs : List (Nat × Nat)) (t : Tree) 
 candidate, the gate's verdict is a refusal exactly when the list is non-empty, and then it is the
 FIRST member.  (The replay accepts a logged reason that is any member: a harmless reordering of
 the independent tests changes the logged reason, never the decision.) -/
-theorem refusal_reasons_sound (L : Lang) (diffs : List (Nat × Nat)) (t : Tree) (off state : Nat) (lineDiff : Bool) :
-    (Verdict.hasChanges ∈ refusalReasons diffs t off lineDiff ↔ t.data.hasChanges = true) ∧
-    (Verdict.isError ∈ refusalReasons diffs t off lineDiff ↔ t.data.symbol = symError) ∧
-    (Verdict.isMissing ∈ refusalReasons diffs t off lineDiff ↔ t.data.isMissing = true) ∧
-    (Verdict.isFragile ∈ refusalReasons diffs t off lineDiff ↔ (t.data.fragileLeft || t.data.fragileRight) = true) ∧
-    (Verdict.rangeDiff ∈ refusalReasons diffs t off lineDiff ↔
-      (rangeIntersects diffs off (diffSpanEnd t off) || lineDiff) = true) ∧
-    (refusalReasons diffs t off lineDiff = [] →
-      reuseGate L diffs t off off state true lineDiff = .reuse ∨
-      reuseGate L diffs t off off state true lineDiff = .firstLeaf) ∧
-    (∀ r rest, refusalReasons diffs t off lineDiff = r :: rest →
-      reuseGate L diffs t off off state true lineDiff = r) := by
+theorem refusal_reasons_sound (L : Lang) (diffs : List (Nat × Nat)) (t : Tree) (off state : Nat) (lineDiff : Bool) (oldEnd : Option Nat) :
+    (Verdict.hasChanges ∈ refusalReasons diffs t off lineDiff oldEnd ↔ t.data.hasChanges = true) ∧
+    (Verdict.isError ∈ refusalReasons diffs t off lineDiff oldEnd ↔ t.data.symbol = symError) ∧
+    (Verdict.isMissing ∈ refusalReasons diffs t off lineDiff oldEnd ↔ t.data.isMissing = true) ∧
+    (Verdict.isFragile ∈ refusalReasons diffs t off lineDiff oldEnd ↔ (t.data.fragileLeft || t.data.fragileRight) = true) ∧
+    (Verdict.rangeDiff ∈ refusalReasons diffs t off lineDiff oldEnd ↔
+      (rangeIntersects diffs off (diffSpanEnd t off oldEnd) || lineDiff) = true) ∧
+    (refusalReasons diffs t off lineDiff oldEnd = [] →
+      reuseGate L diffs t off off state true lineDiff oldEnd = .reuse ∨
+      reuseGate L diffs t off off state true lineDiff oldEnd = .firstLeaf) ∧
+    (∀ r rest, refusalReasons diffs t off lineDiff oldEnd = r :: rest →
+      reuseGate L diffs t off off state true lineDiff oldEnd = r) := by
   unfold refusalReasons reuseGate
   refine ⟨?_, ?_, ?_, ?_, ?_, ?_, ?_⟩
   · by_cases h1 : t.data.hasChanges = true <;> by_cases h2 : t.data.symbol = symError <;>
       by_cases h3 : t.data.isMissing = true <;> by_cases h4 : (t.data.fragileLeft || t.data.fragileRight) = true <;>
-      by_cases h5 : (rangeIntersects diffs off (diffSpanEnd t off) || lineDiff) = true <;> simp_all
+      by_cases h5 : (rangeIntersects diffs off (diffSpanEnd t off oldEnd) || lineDiff) = true <;> simp_all
   · by_cases h1 : t.data.hasChanges = true <;> by_cases h2 : t.data.symbol = symError <;>
       by_cases h3 : t.data.isMissing = true <;> by_cases h4 : (t.data.fragileLeft || t.data.fragileRight) = true <;>
-      by_cases h5 : (rangeIntersects diffs off (diffSpanEnd t off) || lineDiff) = true <;> simp_all
+      by_cases h5 : (rangeIntersects diffs off (diffSpanEnd t off oldEnd) || lineDiff) = true <;> simp_all
   · by_cases h1 : t.data.hasChanges = true <;> by_cases h2 : t.data.symbol = symError <;>
       by_cases h3 : t.data.isMissing = true <;> by_cases h4 : (t.data.fragileLeft || t.data.fragileRight) = true <;>
-      by_cases h5 : (rangeIntersects diffs off (diffSpanEnd t off) || lineDiff) = true <;> simp_all
+      by_cases h5 : (rangeIntersects diffs off (diffSpanEnd t off oldEnd) || lineDiff) = true <;> simp_all
   · by_cases h1 : t.data.hasChanges = true <;> by_cases h2 : t.data.symbol = symError <;>
       by_cases h3 : t.data.isMissing = true <;> by_cases h4 : (t.data.fragileLeft || t.data.fragileRight) = true <;>
-      by_cases h5 : (rangeIntersects diffs off (diffSpanEnd t off) || lineDiff) = true <;> simp_all
+      by_cases h5 : (rangeIntersects diffs off (diffSpanEnd t off oldEnd) || lineDiff) = true <;> simp_all
   · by_cases h1 : t.data.hasChanges = true <;> by_cases h2 : t.data.symbol = symError <;>
       by_cases h3 : t.data.isMissing = true <;> by_cases h4 : (t.data.fragileLeft || t.data.fragileRight) = true <;>
-      by_cases h5 : (rangeIntersects diffs off (diffSpanEnd t off) || lineDiff) = true <;> simp_all
+      by_cases h5 : (rangeIntersects diffs off (diffSpanEnd t off oldEnd) || lineDiff) = true <;> simp_all
   · by_cases h1 : t.data.hasChanges = true <;> by_cases h2 : t.data.symbol = symError <;>
       by_cases h3 : t.data.isMissing = true <;> by_cases h4 : (t.data.fragileLeft || t.data.fragileRight) = true <;>
-      by_cases h5 : (rangeIntersects diffs off (diffSpanEnd t off) || lineDiff) = true <;> simp_all <;>
+      by_cases h5 : (rangeIntersects diffs off (diffSpanEnd t off oldEnd) || lineDiff) = true <;> simp_all <;>
       (by_cases h6 : canReuseFirstLeaf L state t (L.tableEntry state (leafSymbol t)) = true <;> simp_all)
   · intro r rest
     by_cases h1 : t.data.hasChanges = true <;> by_cases h2 : t.data.symbol = symError <;>
       by_cases h3 : t.data.isMissing = true <;> by_cases h4 : (t.data.fragileLeft || t.data.fragileRight) = true <;>
-      by_cases h5 : (rangeIntersects diffs off (diffSpanEnd t off) || lineDiff) = true <;> simp_all <;>
+      by_cases h5 : (rangeIntersects diffs off (diffSpanEnd t off oldEnd) || lineDiff) = true <;> simp_all <;>
       (try (intros; simp_all)) <;> (try (rcases h5 with h5 | h5 <;> simp_all))
 
 /-! ## `ts_parser__breakdown_lookahead` -/
@@ -623,18 +623,26 @@ theorem incr_error_iff (T : LR.Table) (bottom : Nat) (l r : Nat) (c d : LR.Stack
 theorem step_input (T : LR.Table) (bottom : Nat) (st st' : LR.Stack) (inp inp' : List Tok)
     (h : LR.step T bottom st inp = some (st', inp')) : inp'.length ≤ inp.length := by
   unfold LR.step at h
-  cases inp with
-  | nil => simp at h
-  | cons x rest =>
-    simp only at h
+  by_cases hnl : T.noLookahead (LR.top bottom st) = true
+  · simp only [hnl, if_true] at h
     split at h
-    · simp only [Option.some.injEq, Prod.mk.injEq] at h; rw [← h.2]; simp
-    · simp only [Option.some.injEq, Prod.mk.injEq] at h; rw [← h.2]; simp
     · split at h
-      · simp only [Option.some.injEq, Prod.mk.injEq] at h; rw [← h.2]; simp
+      · simp only [Option.some.injEq, Prod.mk.injEq] at h; rw [← h.2]; exact Nat.le_refl _
       · contradiction
     · contradiction
-    · contradiction
+  · simp only [hnl] at h
+    cases inp with
+    | nil => simp at h
+    | cons x rest =>
+      simp only [Bool.false_eq_true, if_false] at h
+      split at h
+      · simp only [Option.some.injEq, Prod.mk.injEq] at h; rw [← h.2]; simp
+      · simp only [Option.some.injEq, Prod.mk.injEq] at h; rw [← h.2]; simp
+      · split at h
+        · simp only [Option.some.injEq, Prod.mk.injEq] at h; rw [← h.2]; simp
+        · contradiction
+      · contradiction
+      · contradiction
 
 /-- `reused_not_lexed` / `lex_calls_bound` (C12): in an incremental run the tokens taken from the
 lexer and the tokens skipped below reused subtrees add up to the tokens consumed; the tokens of a
@@ -739,5 +747,17 @@ example :
     let all := [(0, 1), (2, 4294967295)]
     reuseGate toyLang all t 1 1 2 true (lineDiffOf false all t 1 1) = .reuse ∧
     reuseGate toyLang all t 1 1 2 true (lineDiffOf true all t 1 1) = .rangeDiff := by decide
+
+/-! ## Finding `eof-lookahead-range-added`, at the level of the gate
+
+`lst`, text `"ab cd"`, old ranges `[0,2)`: the word `ab` (2 bytes, look-ahead 1) peeked the end of
+the old input (old tree: 2 bytes).  New ranges `[0,2);[3,5)`: difference `[3,5)`.  The pinned gate
+(`oldEnd = none`) accepts the word — `[0,3)` meets no difference — although from scratch the lexer
+runs on into the added range; with the repair `fixes/C01-eof-lookahead-range-added.diff`
+(`oldEnd = some 2`) the span is extended to the end of the address space and the gate refuses. -/
+example :
+    let t : Tree := .mk { (default : NodeData) with symbol := 3, size := { bytes := 2, extent := { row := 0, column := 2 } }, lookahead := 1 } []
+    reuseGate toyLang [(3, 5)] t 0 0 1 true false none = .reuse ∧
+    reuseGate toyLang [(3, 5)] t 0 0 1 true false (some 2) = .rangeDiff := by decide
 
 end TsVerif.C01
